@@ -1,20 +1,20 @@
 INIT Init
 NEXT Next
 CONSTANTS
-  MaxRules = 2
-  MaxScen = 2
-  MaxEx = 2
-  MaxSteps = 1
-  MaxStmts = 3
-  MaxStepsTot = 4
+  MaxRules = 0
+  MaxScen = 1
+  MaxEx = 1
+  MaxSteps = 3
+  MaxStmts = 1
+  MaxStepsTot = 3
   MaxLines = 60
-  LayoutsF = {"none"}
-  Layouts = {"none"}
-  Hows = {"none"}
-  Descs = {0}
-  StepKws = {"given", "and"}
-  Args <- ArgsNone
-  ExVariants = {"2x2"}
-  Gaps = {"none"}
+  LayoutsF = {"none", "two"}
+  Layouts = {"none", "cmt", "multi"}
+  Hows = {"none", "both"}
+  Descs = {0, 1}
+  StepKws <- AllKws
+  Args <- ArgsMid
+  ExVariants = {"2x2", "1x3"}
+  Gaps = {"none", "comment"}
 INVARIANT Faithful
 INVARIANT Neutral
